@@ -195,6 +195,11 @@ def check_freq(case, ctx):
     ref = scipy.linalg.eigvals(K[np.ix_(act, act)], KM[np.ix_(act, act)])
     ref = np.sqrt(ref.astype(complex))
     ref = ref[ref.real > 1e-6]
+    if ref.size == 0:
+        # every root has left the real axis (far beyond flutter / divergence): nothing passes the package's `real part > 1e-6` filter
+        ctx.ok(w.size == 0, name + '.shape', 'values returned although no root has a positive real part: %r' % (w[:3],))
+        ctx.label('no-real-root')
+        return
     wmax = np.max(np.abs(ref))
     ctx.ok(w.size >= 1, name + '.shape', 'no eigenvalue returned')
     for x in w[:6]:
